@@ -13,11 +13,12 @@ from .worlds import INEXACT, MISSING, NANQ, SCALE, f2q
 
 
 # ------------------------------------------------------------------ variables
-def add_data_vars(w: dict, rng: random.Random, *, rich: bool = True, late: bool = False, packed: bool = False) -> None:
+def add_data_vars(w: dict, rng: random.Random, *, rich: bool = True, late: bool = False, packed: bool = False,
+                  ksize: int | None = None) -> None:
     """Attach extra dimensions and tagged data variables to a geometric world."""
     tname = "time" if w["conv"] == "shoc_simple" else "t"
     extras = [{"name": "t", "size": 2, "coord": {"name": tname, "kind": "time", "values": [0, 6]}},
-              {"name": "k", "size": rng.choice([1, 2, 3])}]        # (a dimension of length 1 must survive every selection)
+              {"name": "k", "size": ksize or rng.choice([1, 2, 3])}]        # (a dimension of length 1 must survive every selection)
     if rng.random() < 0.3:
         extras.append({"name": "index", "size": 2})
     w["extras"] = extras
